@@ -152,6 +152,19 @@ def cases(seed, tier):
         c = gen_aligned_case(rng)
         c.update(kind='nf', via='api')
         out.append(c)
+    # rms forced, background NOT forced: the background pass still has to run and remove a pedestal
+    n_ped = 10 if tier == 'quick' else 100
+    for i in range(n_ped):
+        c = gen_source_case(rng, big_ok=False)
+        c['shape'] = [int(rng.integers(130, 170)), int(rng.integers(130, 170))]
+        c['index'] = [c['shape'][0] / 2.0 + float(rng.uniform(-25, 25)), c['shape'][1] / 2.0 + float(rng.uniform(-25, 25))]
+        c['src']['a'] = min(c['src']['a'], 8.0 * c['scale'] * 3600)
+        c['src']['b'] = min(c['src']['b'], c['src']['a'])
+        c['pedestal_in_rms'] = float(rng.choice([-3.0, 2.0, 5.0, 20.0]))
+        c['snr_forced'] = float(rng.uniform(30, 100))
+        c['cores'] = int(rng.choice([1, 2]))
+        c.update(kind='nf', via='cli' if i % 4 == 3 else 'api', stratum='pedestal')
+        out.append(c)
     n_d25 = 30 if tier == 'quick' else 300
     for i in range(n_d25):
         c = gen_source_case(rng, d25=True)
@@ -208,7 +221,7 @@ def pixbeam_kernel(z, truth, beam):
     return fwhm_a * render.FWHM2SIG, fwhm_b * render.FWHM2SIG, ang
 
 
-def run_finder(case, img, h, rms, sc, bane=False, cores=1):
+def run_finder(case, img, h, rms, sc, bane=False, cores=1, bkg_internal=False):
     """-> list of dict rows (the catalogue), or raises"""
     from astropy.io import fits
     fn = os.path.join(sc, 'im.fits')
@@ -220,7 +233,7 @@ def run_finder(case, img, h, rms, sc, bane=False, cores=1):
                'import sys; sys.path.insert(0, %r); from AegeanTools.CLI import aegean; sys.exit(aegean.main(sys.argv[1:]))' % repo,
                fn, '--table', tab, '--cores', '1', '--negative']
         if not bane:
-            cmd += ['--forcerms', repr(float(rms)), '--forcebkg', '0']
+            cmd += ['--forcerms', repr(float(rms))] + ([] if bkg_internal else ['--forcebkg', '0'])
         if not case['docov']:
             cmd += ['--nocov']
         p = subprocess.run(cmd, stdout=subprocess.PIPE, stderr=subprocess.STDOUT, timeout=600, cwd=sc)
@@ -237,7 +250,9 @@ def run_finder(case, img, h, rms, sc, bane=False, cores=1):
     sf = SourceFinder(log=logging.getLogger('aegmon-null'))
     kw = dict(cores=cores, docov=case['docov'], nonegative=False, nopositive=False)
     if not bane:
-        kw.update(rms=float(rms), bkg=0.0)
+        kw.update(rms=float(rms))
+        if not bkg_internal:
+            kw.update(bkg=0.0)
     srcs = sf.find_sources_in_image(fn, **kw)
     names = ['island', 'source', 'ra', 'dec', 'peak_flux', 'a', 'b', 'pa', 'int_flux', 'flags', 'err_ra', 'err_dec',
              'err_peak_flux', 'err_a', 'err_b', 'err_pa', 'err_int_flux', 'local_rms', 'ra_str', 'dec_str', 'psf_a', 'psf_b',
@@ -387,8 +402,12 @@ def _run_nf(o, case, sc):
     armed = case.get('via') != 'cli'
     if armed:
         _arm(o)
+    ped = case.get('pedestal_in_rms')
+    if ped is not None:
+        img = img + ped * rms
+        o.count('nf_pedestal_cases')
     try:
-        rows = run_finder(case, img, h, rms, sc)
+        rows = run_finder(case, img, h, rms, sc, bkg_internal=ped is not None, cores=case.get('cores', 1))
     except SubjectError as e:
         o.violate('raises', dict(wit, error=str(e)))
         return
